@@ -3,6 +3,7 @@ package apps
 
 import (
 	"context"
+	"fmt"
 
 	"git.defalsify.org/vise.git/resource"
 	"git.defalsify.org/vise.git/state"
@@ -81,7 +82,7 @@ func TwoSinks() *app.Res {
 
 // NeverEnds: no input ends a session of this application (every node stops
 // at a HALT in front of its INCMP lines, none terminates).
-func NeverEnds(i int) bool { return i == 0 || i == 3 }
+func NeverEnds(i int) bool { return i == 0 || i == 3 || i == 5 }
 
 // Refresh: a node that shows a value, stops, and on any input loads the value
 // again and stops again without moving (a refresh-on-any-input screen): the
@@ -97,8 +98,31 @@ func Refresh() *app.Res {
 	return rs
 }
 
+// Faulty: an external function that fails for some client input (a refused
+// PIN): the VM raises LOADFAIL and goes to the catch node with the function's
+// error as the page's error prefix. Selectors: 1 to the prompt, any input is
+// checked, 0 back / to the top.
+func Faulty() *app.Res {
+	rs := app.NewRes()
+	rs.Funcs["verify"] = func(ctx context.Context, sym string, input []byte) (resource.Result, error) {
+		if len(input) > 0 && input[0] == '7' {
+			return resource.Result{}, fmt.Errorf("refused")
+		}
+		return resource.Result{Content: "ok"}, nil
+	}
+	rs.Funcs["tip"] = app.Static("tip")
+	rs.Node("root", "root", app.Code().MOut("pin", "1").Halt().InCmp("pin", "1").Bytes())
+	rs.Node("pin", "pin? {{.tip}}", app.Code().Load("tip", 8).Map("tip").Halt().InCmp("check", "*").Bytes())
+	rs.Node("check", "checked {{.verify}}", app.Code().Load("verify", 8).Map("verify").MOut("top", "0").MOut("again", "1").Halt().
+		InCmp("^", "0").InCmp("_", "1").Bytes())
+	rs.Node("_catch", "oops", app.Code().MOut("back", "0").Halt().InCmp("_", "*").Bytes())
+	return rs
+}
+
 func Get(i int) *app.Res {
 	switch i {
+	case 5:
+		return Faulty()
 	case 0:
 		return Intro()
 	case 1:
